@@ -31,6 +31,7 @@ def conclude(pid, P, tier, seed, results, wall):
     trusted = set()
     assumptions = list(P.get('assumptions', []))
     slow = []
+    cover_state = {}
     for r in results:
         unit = r.get('unit')
         if r.get('crash'):
@@ -58,12 +59,12 @@ def conclude(pid, P, tier, seed, results, wall):
             if o.get('time', 0) and o['time'] > 5:
                 slow.append((name, o['time']))
             if o.get('expect') == 'sat':
-                covers_total += 1
+                # a cover holds if SOME path instance of it is satisfiable
+                cov = cover_state.setdefault((unit, name), {'sat': 0, 'unsat': 0})
                 if st == 'discharged':
-                    covers_sat += 1
+                    cov['sat'] += 1
                 elif st == 'failed':
-                    errors.append('%s: vacuity: cover obligation %s is unsatisfiable '
-                                  '(contradictory precondition or unreachable return)' % (unit, name))
+                    cov['unsat'] += 1
                 continue
             if o.get('known') or name.endswith('#known'):
                 base = name[:-len('#known')] if name.endswith('#known') else name
@@ -100,6 +101,18 @@ def conclude(pid, P, tier, seed, results, wall):
                 errors.append('%s: %s: %s' % (unit, name, o.get('reason')))
             else:
                 undecided.append((unit, name, 'solver undecided (%s)' % (o.get('tried'),)))
+    dump = os.environ.get('VERIF_DUMP_NAMES')
+    if dump:
+        names = [o['name'] for r in results for o in r.get('obligations', [])
+                 if o.get('status') == 'discharged' and o.get('expect') != 'sat']
+        json.dump(sorted(set(names)), open(dump, 'w'))
+    for (unit, name), cov in cover_state.items():
+        covers_total += 1
+        if cov['sat']:
+            covers_sat += 1
+        elif cov['unsat']:
+            errors.append('%s: vacuity: cover obligation %s is unsatisfiable on every path '
+                          '(contradictory precondition or unreachable return)' % (unit, name))
     # vacuity
     if n_obl == 0 and not errors:
         errors.append('vacuity: zero obligations generated for %s' % pid)
